@@ -244,6 +244,26 @@ func init() {
 			matrix = c03Calls(fd, "make") || c03Calls(fd, "overlapRange")
 		}
 		fmt.Fprintf(w, "def normaliseAllocatesMatrix : Bool := %s\n\n", c03Bool(matrix))
+		// 3c. does GetMergeCells normalise the worksheet's own list (argument `ws`) or a copy?
+		w.WriteString("/-! merge.go:GetMergeCells — mergeOverlapCells is called on the worksheet itself (true) or on a copy (false) -/\n")
+		inPlace, found := false, false
+		if fd := funcDecl("File", "GetMergeCells"); fd != nil && fd.Body != nil {
+			ast.Inspect(fd.Body, func(nd ast.Node) bool {
+				if c, ok := nd.(*ast.CallExpr); ok && len(c.Args) == 1 {
+					if sel, ok := c.Fun.(*ast.SelectorExpr); ok && sel.Sel.Name == "mergeOverlapCells" {
+						found = true
+						if id, ok := c.Args[0].(*ast.Ident); ok && id.Name == "ws" {
+							inPlace = true
+						}
+					}
+				}
+				return true
+			})
+		}
+		if !found {
+			fail("GetMergeCells: call of mergeOverlapCells")
+		}
+		fmt.Fprintf(w, "def getMergeCellsInPlace : Bool := %s\n\n", c03Bool(inPlace))
 
 		// 4. densification guards
 		w.WriteString("/-! sheet.go: guards of the two densification loops (`rowCount OP row`, `cellCount OP col`) -/\n")
